@@ -481,6 +481,37 @@ def processConc (h : Hist) (b : Block) (otoks : List String) : Hist :=
       let viol := if refusedLeaves.isEmpty then viol else
         (viol.push ("C02", "refused-request-relayed", flatS s!"{" ".intercalate b.ev} :: {refusedLeaves}")).push
           ("C04", "refused-request-changed-state", flatS s!"{" ".intercalate b.ev} :: {refusedLeaves}")
+      -- C12 under concurrency: a component is added at most once per (type, entity)
+      let addsOk := tasks.filterMap fun (t : Nat × Option Req) =>
+        match t.2 with
+        | some (.compAdd rid _ tid eid _) => if (inboxOf t.1 b.ds).contains (.compAddResp rid) then some (tid, eid) else none
+        | _ => none
+      let viol := if addsOk.eraseDups.length == addsOk.length then viol else
+        viol.push ("C12", "component-added-twice", flatS s!"{" ".intercalate b.ev} :: two requests of the block were both answered that they added the component (type, entity) {addsOk}")
+      -- C13 under concurrency: an update is relayed to the subscribers of its type - to every one that stays subscribed,
+      -- and to nobody that neither was nor becomes a subscriber within the block
+      let subIssues : List String := tasks.flatMap fun (t : Nat × Option Req) =>
+        match t.2, h.srv.locate t.1 with
+        | some (.compUpdate ots tid eid _), some (s, p) =>
+          if (s.findComp tid eid).isNone then [] else
+          let got := (b.ds.filter fun (d : Delivery) => match d.2 with | .compUpdateBcast o c => o == ots && c.tid == tid && c.eid == eid | _ => false).map Prod.fst
+          let subsBefore := (s.subscribers tid).filterMap fun pid => (s.findPart pid).map (·.conn)
+          let touching := tasks.filterMap fun (u : Nat × Option Req) =>
+            match u.2 with
+            | some (.subscribe _ tid') => if tid' == tid then some u.1 else none
+            | some (.unsubscribe _ tid') => if tid' == tid then some u.1 else none
+            | _ => none
+          let stable := subsBefore.filter fun c => c != p.conn && !movers.contains c && !touching.contains c
+          let allowed := subsBefore ++ touching
+          let missed := stable.filter fun c => !got.contains c
+          let extra := got.filter fun c => !allowed.contains c
+          let twice := got.eraseDups.length != got.length
+          (if missed.isEmpty then [] else [s!"the update {ots} of component ({tid}, {eid}) did not reach the subscribers' connections {missed}"]) ++
+          (if extra.isEmpty then [] else [s!"the update {ots} of component ({tid}, {eid}) reached connections {extra}, which are not subscribed to type {tid}"]) ++
+          (if twice then [s!"the update {ots} of component ({tid}, {eid}) reached a connection twice: {got}"] else [])
+        | _, _ => []
+      let viol := if subIssues.isEmpty then viol else
+        viol.push ("C13", "component-update-notify", flatS s!"{" ".intercalate b.ev} :: {subIssues}")
       let viol := if lateRelays.isEmpty then viol else
         viol.push ("C03", "relay-from-a-session-already-left", flatS s!"{" ".intercalate b.ev} :: {lateRelays}")
       let viol := if relayIssues.isEmpty then viol else
@@ -502,6 +533,18 @@ def finishHist (h : Hist) : IO Unit := do
   | some d => IO.println s!"R {h.idx} diff {(d.replace "\n" " ")}"
   for v in Spec.runMonitors h.cfg h.steps.toList ++ Spec.runViews h.cfg h.vsteps.toList do
     IO.println s!"M {h.idx} {v.prop} {v.cause} event={v.event} :: {v.detail}"
+    -- a view that diverged in a history with a concurrent block is also a failing input of the property that owns the
+    -- part of the state concerned: who is in the session (C06), components (C12), what modules attach (C16)
+    if h.concBlocks > 0 && v.prop == "C01" && v.cause == "view-diverged" then
+      let part := ((v.detail.splitOn ": ").getD 1 "")
+      let also : List String :=
+        if part.startsWith "participants" then ["C06"]
+        else if part.startsWith "entities" then ["C06", "C05"]
+        else if part.startsWith "components" then ["C12"]
+        else if part.startsWith "entity actions" || part.startsWith "asset instances" then ["C16"]
+        else []
+      for p in also do
+        IO.println s!"M {h.idx} {p} view-diverged event={v.event} :: {v.detail}"
   for v in h.concViol do
     IO.println s!"M {h.idx} {v.1} {v.2.1} event=0 :: {v.2.2}"
   if h.concBlocks > 0 then IO.println s!"C {h.idx} blocks={h.concBlocks} unserializable={h.concOdd} registry={h.regChecked}{match h.note with | some n => " :: " ++ n | none => ""}"
